@@ -110,8 +110,6 @@ func VerifC30Statement() {
 	zzverif.Assert(verifDump(stmt1) == verifDump(stmt2), "same-tree")
 }
 
-func VerifC30Len() { zzverif.Assert(len(verifCatalogue) == zzverif.Param("N"), "catalogue-size") }
-
 // VerifC30StmtLeaf: a concrete statement shape whose leaf WHICH is replaced IN THE TREE by a
 // symbolic one (0: string literal, 1: field name after ->, 2: column alias, 3: table name,
 // 4: table alias); print, parse (the goyacc driver runs on concrete token kinds, the lexer on the
